@@ -1,7 +1,68 @@
 // C06 - the hash manager never loses, duplicates or strands a job; flush always drains.
 // Histories include rejected submits and flushes at any point; judged by the conservation model in hash_engine.hpp.
 #include "../common/hash_engine.hpp"
+#include "../common/periodic.hpp"
 static std::vector<isal::HashFamily> g_fams;
+
+// A long-lived manager: one context, flush-driven, `volume` segments of almost 2^32 bytes each (the periodic read-only mapping), so that
+// 16 GiB and more pass through the manager while its other lanes stay idle.  Conservation only: every submit/flush pair hands the
+// context back exactly once, with no error, in the expected state; the manager is empty afterwards.
+static bool run_volume(const he::Case &c, const isal::HashFamily &f, pbt::Ctx &ctx)
+{
+        using namespace isal;
+        const AlgoDesc &D = algo_desc[f.algo];
+        auto failx = [&](const std::string &k, const std::string &m) { return ctx.fail(k + "|" + c.fam, c.fam + ": " + m); };
+        guard::Arena A;
+        guard::FaultInfo fi;
+        uint8_t *mgr = A.alloc("mgr", D.mgr_size, 64, guard::END, c.prefill);
+        void *cx = A.alloc("ctx", D.ctx_size, 64, guard::END, 0x3c);
+        ctx_init(f.algo, cx);
+        int rc = 0;
+        bool okc = guard::guarded_call(fi, [&] {
+                if (f.is_isal()) rc = f.i_init(mgr);
+                else f.init(mgr);
+        });
+        if (!okc) return !failx("fault", "fault in init");
+        uint64_t done = 0;
+        for (int sgm = 0; sgm < c.volume; sgm++) {
+                uint32_t len = 0xffffffffu - (uint32_t) ((c.seed >> (sgm % 8)) % 4096);
+                int flags = (sgm == 0 ? ISAL_HASH_FIRST : 0) | (sgm + 1 == c.volume ? ISAL_HASH_LAST : 0);
+                void *r = nullptr;
+                okc = guard::guarded_call(fi, [&] {
+                        if (f.is_isal()) rc = f.i_submit(mgr, cx, &r, periodic::stream(), len, flags);
+                        else r = f.submit(mgr, cx, periodic::stream(), len, flags);
+                });
+                if (!okc) { A.describe(fi); return !failx("fault-submit", "fault in submit of segment " + std::to_string(sgm) + " after " + std::to_string(done >> 30) + " GiB through this manager: " + fi.where); }
+                if (rc && failx("rc", "valid submit returned " + std::to_string(rc))) return false;
+                int flushes = 0;
+                while (!r && flushes++ < 4) {
+                        okc = guard::guarded_call(fi, [&] {
+                                if (f.is_isal()) rc = f.i_flush(mgr, &r);
+                                else r = f.flush(mgr);
+                        });
+                        if (!okc) { A.describe(fi); return !failx("fault-flush", "fault in flush of segment " + std::to_string(sgm) + " after " + std::to_string(done >> 30) + " GiB through this manager: " + fi.where); }
+                }
+                done += len;
+                if (r != cx)
+                        if (failx("stranded", std::string(r ? "an unknown context" : "nothing") + " was handed back for segment " + std::to_string(sgm) + " (" + std::to_string(done >> 30) + " GiB through this manager)"))
+                                return false;
+                if (ctx_error(f.algo, cx) != ISAL_HASH_CTX_ERROR_NONE && failx("error", "error " + std::to_string(ctx_error(f.algo, cx)) + " on a valid segment")) return false;
+                uint32_t want = sgm + 1 == c.volume ? ISAL_HASH_CTX_STS_COMPLETE : ISAL_HASH_CTX_STS_IDLE;
+                if (ctx_status(f.algo, cx) != want && failx("status", "status " + std::to_string(ctx_status(f.algo, cx)) + " after segment " + std::to_string(sgm))) return false;
+        }
+        void *r = (void *) 1;
+        okc = guard::guarded_call(fi, [&] {
+                if (f.is_isal()) rc = f.i_flush(mgr, &r);
+                else r = f.flush(mgr);
+        });
+        if (!okc) return !failx("fault-flush", "fault in the final flush");
+        if (r && failx("not-empty", "flush of the emptied manager handed back a context")) return false;
+        ctx.label("volume (GiB through one manager)", done >> 30);
+        ctx.label("fam=" + c.fam);
+        ctx.nontrivial = true;
+        return true;
+}
+
 int main(int argc, char **argv)
 {
         pbt::Prop<he::Case> P;
@@ -16,6 +77,16 @@ int main(int argc, char **argv)
                 if (g_fams.empty()) { fprintf(stderr, "HARNESS-ERROR: no hash family available\n"); exit(3); }
         };
         P.gen = [](pbt::Ctx &ctx) {
+                static long case_no = 0;
+                if (case_no < ctx.optnum("volumes", 0)) {
+                        he::Case v;
+                        v.fam = g_fams[(size_t) (ctx.optnum("worker", 0) + case_no * ctx.optnum("workers", 1)) % g_fams.size()].label();
+                        case_no++;
+                        v.volume = 5; // 5 x ~4 GiB: more than 2^28 blocks of 64 bytes
+                        v.seed = pbt::rng64(1, UINT64_MAX - 8);
+                        v.prefill = pbt::rng<int>(0, 255);
+                        return v;
+                }
                 const isal::HashFamily &f = g_fams[pbt::rng<size_t>(0, g_fams.size() - 1)];
                 he::GenOpts go;
                 go.allow_bad = true;
@@ -31,6 +102,7 @@ int main(int argc, char **argv)
                 for (auto &x : g_fams)
                         if (x.label() == c.fam) f = &x;
                 if (!f) { ctx.label("absent-family"); return true; }
+                if (c.volume) return run_volume(c, *f, ctx);
                 he::ExecStats st;
                 bool ok = he::execute(c, *f, ctx, st);
                 ctx.label("fam=" + c.fam);
